@@ -6,6 +6,7 @@ package parser
 
 import (
 	"fmt"
+	"sort"
 
 	grammar "github.com/acekingke/yaccgo/Grammar"
 	item "github.com/acekingke/yaccgo/Items"
@@ -127,8 +128,9 @@ func (v *astDeclareVistor) Process(node *Node) {
 		//set other value
 		v.code = n.CodeList
 		v.union = n.Union
-		for key, id := range v.idsymtabl {
-			if id.Value == 0 {
+		// number in name order: map iteration order differs from run to run
+		for _, key := range sortedIdNames(v.idsymtabl) {
+			if v.idsymtabl[key].Value == 0 {
 				v.idMaxValue++
 				v.idsymtabl[key].Value = v.idMaxValue
 			}
@@ -243,7 +245,8 @@ func (w *Walker) BuildLALR1() *lalr.LALR1 {
 		//1. create symbo
 		index := 1
 		// first move the terminal symbol first
-		for _, id := range v.idsymtabl {
+		for _, name := range sortedIdNames(v.idsymtabl) {
+			id := v.idsymtabl[name]
 			if id.IDTyp == TERMID {
 				terminals = append(terminals, id)
 			}
@@ -349,6 +352,25 @@ func ParseAndBuild(input string) (*Walker, error) {
 		root.LALR1 = lalr
 		return w, nil
 	}
+}
+
+// names of the identifier table in a fixed (sorted) order
+func sortedIdNames(tab map[string]*Idendity) []string {
+	names := make([]string, 0, len(tab))
+	for name := range tab {
+		names = append(names, name)
+	}
+	sort.Strings(names)
+	return names
+}
+
+// SortedIdendities returns the identifier table in name order.
+func (v *RootVistor) SortedIdendities() []*Idendity {
+	res := make([]*Idendity, 0, len(v.idsymtabl))
+	for _, name := range sortedIdNames(v.idsymtabl) {
+		res = append(res, v.idsymtabl[name])
+	}
+	return res
 }
 
 func (v *RootVistor) GetIdsymtabl() map[string]*Idendity {
